@@ -195,6 +195,11 @@ fn instants() -> Vec<i64> {
         f(2024, 6, 15, 21, 30, 0),
         f(2024, 6, 16, 0, 30, 0),
         f(2024, 6, 16, 22, 15, 0),
+        // years 16 / 32 / 64 after 2024 and 32 before it, next to Easter
+        f(2040, 4, 1, 9, 0, 0),
+        f(2056, 3, 31, 9, 0, 0),
+        f(2088, 4, 10, 9, 0, 0),
+        f(1992, 4, 18, 9, 0, 0),
     ]
 }
 
